@@ -1,2 +1,43 @@
-From BMC Require Import Base.
-Theorem C14_placeholder : True. Proof. exact I. Qed.
+(* C14 — SDR repository retrieval returns one consistent, complete set of
+   records.  A repository is a list of (record ID, full record bytes) in
+   storage order, served with Next-chaining ([serve_sdr]); [wf_repo]: IDs
+   distinct and < 0xFFFF, each record starts with its 5-byte header, bodies
+   of Full Sensor Records decode; [walkable]: non-empty and only the first
+   record may carry ID 0000h (which Get SDR reserves for "the first record"). *)
+From BMC Require Import Base Prim Layers Proc Dispatch SdrProofs.
+From BMCProps Require Import Tie.
+
+(* the walk returns exactly the Full Sensor Records, in storage order, each under the record's OWN ID
+   (also when the first record's ID is not 0), each field the reference decoding of the body; the fuel
+   (number of records + 1) is never exhausted *)
+Theorem C14_complete : forall recs rid, wf_repo recs -> walkable recs ->
+  walk (serve_sdr recs) rid 0 (length recs + 1) [] = WOk (full_records recs).
+Proof. exact walk_complete. Qed.
+Theorem C14_each_once : forall recs, wf_repo recs -> NoDup (map fst (full_records recs)).
+Proof. exact full_records_nodup. Qed.
+Theorem C14_reference_decoding : forall recs id r, wf_repo recs -> In (id, r) (full_records recs) ->
+  exists data, In (id, data) recs /\ rec_type data = 0x01 /\ decode_fsr fsr_zero (rec_body data) = Ok r.
+Proof. exact full_records_decoded. Qed.
+
+(* one round of RetrieveSDRRepository (info, reserve, walk, info): a result is returned only if the walk
+   succeeded under one reservation and neither timestamp advanced between the two info answers; otherwise the
+   partial result is discarded (None = the round is retried) *)
+Theorem C14_snapshot : forall info0 info1 reserve get fuel m,
+  retrieve_round2 info0 info1 reserve get fuel = Some m ->
+  exists add0 erase0 add1 erase1 rid,
+    info0 = Some (add0, erase0) /\ info1 = Some (add1, erase1) /\ add1 <= add0 /\ erase1 <= erase0 /\
+    reserve tt = Some rid /\ walk get rid 0 fuel [] = WOk m.
+Proof. exact retrieve_round2_some. Qed.
+Theorem C14_modified_is_discarded : forall add0 erase0 add1 erase1 reserve get fuel,
+  add0 < add1 \/ erase0 < erase1 ->
+  retrieve_round2 (Some (add0, erase0)) (Some (add1, erase1)) reserve get fuel = None.
+Proof. exact retrieve_round2_stale. Qed.
+
+(* the faithful model refutes the statement without [walkable]: a later record with ID 0000h sends the walk
+   back to the first record for ever (in the Go code: until the caller's context expires) *)
+Theorem C14_id_zero_later_refuted : forall rid f acc, walk (serve_sdr cx_repo) rid 0 f acc = WOutOfFuel.
+Proof. exact walk_cx_repo_loops. Qed.
+
+Theorem C14_constants_tie : G.sdrHeaderLength = 5 /\ G.sdrMaxLength = 64 /\ G.RecordTypeFullSensor = 1 /\
+                            G.RecordIDFirst = 0 /\ G.RecordIDLast = 0xffff.
+Proof. exact tie_sdr_constants. Qed.
